@@ -6,6 +6,9 @@
 (*   neg    q t n                  insert(query, Err(NoRecordsFound{negative_ttl n}), ..) *)
 (*   err    q t c                  insert(query, Err(transient), ..)           *)
 (*   get    q t res ttls neg       get(query, base + t) -> miss | pos | neg    *)
+(*   neg2   q t soaTtl soaMin      (caching-client layer) upstream answered    *)
+(*                                 NXDOMAIN/NODATA with this SOA               *)
+(*   clear                         (caching-client layer) clear_cache()        *)
 (* t is in ticks of half a second.  The monitor re-computes, with the          *)
 (* operators of CacheOps, what the specification allows for every get.         *)
 EXTENDS CacheOps, TLC, Json, IOUtils
@@ -32,6 +35,14 @@ Allowed ==
        /\ store' = Put(Key(e.q), [kind |-> "pos", at |-> e.t, orig |-> e.recs, neg |-> 0 - 1])
     \/ /\ e.ev = "neg"
        /\ store' = Put(Key(e.q), [kind |-> "neg", at |-> e.t, orig |-> <<>>, neg |-> e.n])
+    \* a negative response as received from upstream (caching-client layer): its negative TTL is
+    \* derived here, by the specification, from the SOA in the authority section
+    \/ /\ e.ev = "neg2"
+       /\ store' = Put(Key(e.q), [kind |-> "neg", at |-> e.t, orig |-> <<>>,
+                                  neg |-> NegTtlFromSoa(e.soaTtl, e.soaMin)])
+    \* the caller asked to flush the cache
+    \/ /\ e.ev = "clear"
+       /\ store' = [k \in {} |-> 0]
     \/ /\ e.ev = "err"          \* C15_NoTransientCached: nothing changes
        /\ store' = store
     \/ /\ e.ev = "get" /\ e.res = "miss"
